@@ -391,6 +391,19 @@ def file_histories(tier: str) -> Tuple[int, List[Violation]]:
                             viols.append(Violation(f"stale-or-wrong-plan-after-source-rewrite|{bad[0]}",
                                                    f"{name} rewritten {step} times (now {tab}); {json.dumps(spec)[:200]}: {bad[1]}",
                                                    {"kind": "filehist", "tier": tier}))
+    # beyond the small scope: source files of 1500 rows / 1.3 MB (csv, ndjson): every row counts, for the plan and for the cap
+    big = {"x": list(range(1500)), "pad": ["p" * 800] * 1500}
+    for fmt in ("csv", "ndjson"):
+        name = f"big.{fmt}"
+        write_table(d, name, fmt, big, "rows")
+        tabs = {name: big}
+        for cap in (1000, 1499, 1500, 5000):
+            spec = {"combine": "combinatorial", "blocks": [{"mode": "by_position", "source": {"format": fmt, "path": name, "select": ["x"]}}], "max_runs": cap}
+            n += 1
+            bad = judge(spec, d, tabs)
+            if bad:
+                viols.append(Violation(f"large-source-file|{bad[0]}", f"{name} (1500 rows, {os.path.getsize(os.path.join(d, name))} bytes), max_runs={cap}: {bad[1][:300]}",
+                                       {"kind": "filehist", "tier": tier}))
     return n, viols
 
 
